@@ -669,7 +669,9 @@ class Interp:
                 rl = pyval(self.sev(ast.parse(lp.range_is[0], mode="eval").body, fr, fr.env, self.ctx(fr)))
                 rh = pyval(self.sev(ast.parse(lp.range_is[1], mode="eval").body, fr, fr.env, self.ctx(fr)))
                 if (lo, hi) != (rl, rh):
-                    self.fail(fr, "assert", f"loop{ordn}:range-is", f"range({lo}, {hi}) instead of ({rl}, {rh})")
+                    v = Violation("assert", f"loop{ordn}:range-is", f"range({lo}, {hi}) instead of ({rl}, {rh})")
+                    v.fn, v.props = fr.fn, frozenset(lp.range_props.split())
+                    raise v
             for gs in lp.ghost_pre:
                 self.ghost(gs, fr)
             need_snap = self.check_inv and any("at_loop" in cl.expr for cl in lp.inv)
